@@ -43,6 +43,20 @@ class ClientRoles:
             for c in attr_calls(f.node, "sendall") + attr_calls(f.node, "send"):
                 self.foreign_send.append((f, c))
         self.sock_attr = self._sock_attr()
+        # a bound method of the socket kept in a variable / attribute outlives the socket it belongs to
+        self.stored_socket_methods = []
+        for f in m.values():
+            for a in walk_no_nested(f.node):
+                if isinstance(a, ast.Attribute) and a.attr in ("sendall", "send", "recv") and isinstance(a.value, ast.Attribute) \
+                        and a.value.attr == "sock" and not (isinstance(getattr(a, "_parent", None), ast.Call) and a._parent.func is a):
+                    self.stored_socket_methods.append((f, a))
+        if self.stored_socket_methods and hasattr(ctx, "violation"):
+            f, a = self.stored_socket_methods[0]
+            ctx.rule("A5", "TLS upgrade: True only after wrap_socket and socket replacement; non-OK reply returns False before wrapping; "
+                           "nothing keeps using the plain socket afterwards")
+            ctx.violation("A5", f, "socket-method-kept:%s" % a.attr, "%s keeps the bound method %s: after STARTTLS replaces the socket it still "
+                          "reads / writes the plain connection" % (f.qualname, norm(a)), node=a,
+                          witness="connect(starttls=True): AUTHENTICATE with the credentials is written in clear on the TCP socket after the handshake")
         self.sender = self._one(self.send_sites, rule, "command sender (method calling sendall)")
         # readers: the block reader passes one of its parameters to recv; the
         # line reader searches the CRLF delimiter.  Other recv callers fill no
